@@ -15,7 +15,7 @@ import (
 
 func init() {
 	simrt.Register(&simrt.Scenario{
-		Prop: "C12", Name: "close-anytime", Count: tiered(8000, 80000),
+		Prop: "C12", Name: "close-anytime", Count: tiered(8000, 640000),
 		Run: c12Run, MaxOps: 2 << 20, Horizon: 6 * time.Hour,
 		Doc: "Close invoked at a tape-chosen point of a connection's life (handshake cancelled, idle, mid-burst, full window, mid-resend / sync wait, Send/Recv blocked) by either side or both at once, 1-3 concurrent callers plus repeats, over a healthy / blacked-out / stalled transport; bounded return, callers woken, peer notified, nothing left running",
 	})
